@@ -251,7 +251,7 @@ def enumerate_cases(tier):
                 yield {"kind": "point", "ch": {"op": "PauliError", "p": [p], "w": ["b", 0][:k], "word": "".join(word)}}
     for pe in (0.0, 0.3, 1.0):
         for r in (0.01, 0.5, 1.0, 1.2, 2.0):
-            for s in (0.0, 1e-9, 0.1, 1.0, 2.0):
+            for s in (0.0, 1e-9, 0.1, 1.0, 2.0) + ((10.0, 100.0) if r in (0.5, 2.0) and pe == 0.3 else ()):
                 yield {"kind": "point", "ch": {"op": "ThermalRelaxationError", "p": [pe, 1.5, r * 1.5, s * 1.5], "w": [0]}}
     if tier == "quick":
         # one 9-wire custom-kernel case, fixed
